@@ -217,6 +217,10 @@ def fixed_graphs():
     gs.append(({"family": "fix_fft_batch", "stream_bytes": 4096, "nodes": [N("src_c", data=[1, 2, 3, -1, 2, 1, 3, -2, 1, 2], chunks=[3, 3, 4]), N("fftfiltc", [(1, 1)], taps=[1, 2, 3]), N("sink", [(2, 1)])]}, 240))
     # fan-out with one reader that takes a sample at a time
     gs.append(({"family": "fix_tee_uneven", "stream_bytes": 4 * 4096, "nodes": [N("src_big", data=list(range(1, 14))), N("tee", [(1, 1)]), N("sink", [(2, 1)]), N("slow", [(2, 2)], ms=0, max=1), N("sink", [(4, 1)])]}, 8))
+    # a source with no data at all in front of a Delay longer than a stream: the zeros are the
+    # whole output (seed 5 generated this graph and found Delay's eof() defect; now in every run)
+    gs.append(({"family": "fix_empty_delay", "stream_bytes": 4096, "nodes": [N("src_big", data=[]), N("delay", [(1, 1)], delay=2), N("skip", [(2, 1)], skip=1), N("sink", [(3, 1)])]}, 4))
+    gs.append(({"family": "fix_empty_delay", "stream_bytes": 2 * 4096, "nodes": [N("src_big", data=[]), N("delay", [(1, 1)], delay=5), N("sink", [(2, 1)])]}, 4))
     for g, _ in gs:
         g["order"] = list(range(1, len(g["nodes"]) + 1))
     return gs
